@@ -95,6 +95,20 @@ impl<T: Read + Write + ScmSocket> HttpConnection<T> {
     /// `ConnectionClosed` is returned when a client prematurely closes the connection.
     /// `ParseError` is returned when a parsing operation fails.
     pub fn try_read(&mut self) -> Result<(), ConnectionError> {
+        let result = self.try_read_inner();
+        if let Err(ConnectionError::ParseError(_)) = result {
+            // Nothing of a rejected request may survive: restart parsing from a clean state.
+            self.state = ConnectionState::WaitingForRequestLine;
+            self.pending_request = None;
+            self.read_cursor = 0;
+            self.body_vec.clear();
+            self.body_bytes_to_be_read = 0;
+            self.files.clear();
+        }
+        result
+    }
+
+    fn try_read_inner(&mut self) -> Result<(), ConnectionError> {
         // Read some bytes from the stream, which will be appended to what is already
         // present in the buffer from a previous call of `try_read`. There are already
         // `read_cursor` bytes present in the buffer.
